@@ -94,6 +94,15 @@ structure Inv (n : Nat) (a : Adj) (w : Nat → Rat) (j : Nat) (offsets : List Na
   np : ∀ l, l < n → s.npred.getD l 0 = (recl a s P i L1 l).length
   preds : ∀ l, l < n → slice s.fpred (offsets.getD l 0) (s.npred.getD l 0) = recl a s P i L1 l
 
+/-- what the proof needs to know about the layout of `flat_predecessors`: node `l` owns the `K l` cells
+from `offsets[l]` on, the slices are disjoint and inside the array, and a node has at most `K l`
+in-neighbours (for the wrapper's arrays `K l` is the degree; this is where symmetry of `A` enters) -/
+structure Layout (n : Nat) (a : Adj) (offsets : List Nat) (T : Nat) (K : Nat → Nat) : Prop where
+  cap : ∀ l, l < n → offsets.getD l 0 + K l ≤ T
+  disj : ∀ l l', l < n → l' < n → l ≠ l' →
+    offsets.getD l 0 + K l ≤ offsets.getD l' 0 ∨ offsets.getD l' 0 + K l' ≤ offsets.getD l 0
+  count : ∀ l (R : List Nat), l < n → R.Nodup → (∀ x, x ∈ R → x < n ∧ a x l = true) → R.length ≤ K l
+
 section steps
 variable {n : Nat} {a : Adj} {w : Nat → Rat} {j : Nat} {offsets : List Nat} {T : Nat}
   {P : List Nat} {i : Nat} {L1 : List Nat} {s : Fwd}
@@ -315,6 +324,288 @@ theorem Inv.discover_step (h : Inv n a w j offsets T P i L1 s) {l : Nat} (hl : l
   · intro l' hl'
     rw [recl_discover h hl hunv]
     exact h.preds l' hl'
+
+theorem Inv.P_nodup (h : Inv n a w j offsets T P i L1 s) : (P ++ [i]).Nodup := by
+  obtain ⟨r, hr⟩ := h.split
+  have := h.q_nodup
+  rw [hr, show P ++ i :: r = (P ++ [i]) ++ r by simp] at this
+  exact (List.nodup_append.mp this).1
+
+theorem kpred_adj {a : Adj} {d : List Nat} {x l : Nat} (h : kpred a d x l = true) :
+    a x l = true ∧ d.getD x 0 + 1 = d.getD l 0 := by
+  unfold kpred at h
+  simp only [Bool.and_eq_true, beq_iff_eq] at h
+  exact h
+
+theorem Inv.recl_nodup (h : Inv n a w j offsets T P i L1 s) (l : Nat) :
+    (recl a s P i L1 l).Nodup ∧ (l ∉ L1 → (recl a s P i L1 l ++ [i]).Nodup) := by
+  have hP := h.P_nodup
+  have hsub : (P.filter fun x => kpred a s.dist x l).Sublist P := List.filter_sublist
+  have h1 : ((P.filter fun x => kpred a s.dist x l) ++ [i]).Nodup :=
+    (List.Sublist.append_right hsub [i]).nodup hP
+  unfold recl
+  constructor
+  · split
+    · exact h1
+    · simpa using (List.nodup_append.mp h1).1
+  · intro hl
+    simp only [hl, false_and, if_false, List.append_nil]
+    exact h1
+
+theorem Inv.recl_len {K : Nat → Nat} (h : Inv n a w j offsets T P i L1 s)
+    (lay : Layout n a offsets T K) {l : Nat} (hl : l < n) :
+    (recl a s P i L1 l).length ≤ K l ∧ (l ∉ L1 → a i l = true → (recl a s P i L1 l).length + 1 ≤ K l) := by
+  have hmem : ∀ x, x ∈ recl a s P i L1 l → x < n ∧ a x l = true := by
+    intro x hx
+    obtain ⟨hx1, hx2⟩ := mem_recl hx
+    refine ⟨?_, (kpred_adj hx2).1⟩
+    rcases hx1 with hx1 | ⟨rfl, _⟩
+    · exact h.q_lt x (h.P_mem hx1)
+    · exact h.q_lt x h.i_mem
+  constructor
+  · exact lay.count l _ hl (h.recl_nodup l).1 hmem
+  · intro hL hal
+    have := lay.count l _ hl ((h.recl_nodup l).2 hL) (by
+      intro x hx
+      simp only [List.mem_append, List.mem_singleton] at hx
+      rcases hx with hx | rfl
+      · exact hmem x hx
+      · exact ⟨h.q_lt x h.i_mem, hal⟩)
+    simpa using this
+
+theorem recl_record {offsets : List Nat} {w : Nat → Rat} {a : Adj} {s : Fwd} {P : List Nat} {i : Nat}
+    {L1 : List Nat} {l : Nat} (hk : kpred a s.dist i l = true) (hL : l ∉ L1) (l' : Nat) :
+    recl a (record offsets w i s l) P i (L1 ++ [l]) l'
+      = if l' = l then recl a s P i L1 l ++ [i] else recl a s P i L1 l' := by
+  unfold recl record
+  simp only []
+  by_cases h : l' = l
+  · subst h; simp [hk, hL]
+  · simp [h]
+
+/-- the neighbour `l` of `i` lies on the next level: `i` is appended to its predecessor slice and its
+multiplicity grows by `w[l] * multiplicity_to_j[i]` -/
+theorem Inv.record_step {K : Nat → Nat} (h : Inv n a w j offsets T P i L1 s)
+    (lay : Layout n a offsets T K) {l : Nat} (hl : l < n)
+    (hal : a i l = true) (hd : s.dist.getD l 0 = s.dist.getD i 0 + 1) (hlq : l ∈ s.queue)
+    (hL : l ∉ L1) :
+    Inv n a w j offsets T P i (L1 ++ [l]) (record offsets w i s l) := by
+  have hk : kpred a s.dist i l = true := by
+    unfold kpred; rw [hal, hd]; simp
+  have hlj : l ≠ j := by
+    intro e; rw [e, h.d_root] at hd; omega
+  have hne : ∀ x, (x ∈ P ∨ x = i) → x ≠ l := by
+    intro x hx e
+    subst e
+    rcases hx with hx | rfl
+    · have := h.P_le hx; omega
+    · omega
+  have hmul : ∀ x, (x ∈ P ∨ x = i) →
+      (s.mult.set l (s.mult.getD l 0 + w l * s.mult.getD i 0)).getD x 0 = s.mult.getD x 0 := by
+    intro x hx
+    have := hne x hx
+    rw [getD_set_rat]; grind
+  have hmulR : ∀ l', ((recl a s P i L1 l').map fun x =>
+      (s.mult.set l (s.mult.getD l 0 + w l * s.mult.getD i 0)).getD x 0)
+        = (recl a s P i L1 l').map fun x => s.mult.getD x 0 := by
+    intro l'
+    apply List.map_congr_left
+    intro x hx
+    apply hmul
+    rcases (mem_recl hx).1 with hx | ⟨hx, _⟩
+    · exact Or.inl hx
+    · exact Or.inr hx
+  have hcnt := (h.recl_len lay hl).2 hL hal
+  have hnpl := h.np l hl
+  refine
+    { len_d := h.len_d
+      len_np := by simp [record, h.len_np]
+      len_m := by simp [record, h.len_m]
+      len_fp := by simp [record, h.len_fp]
+      split := h.split
+      q_nodup := h.q_nodup
+      q_lt := h.q_lt
+      q_head := h.q_head
+      d_root := h.d_root
+      d_unv := h.d_unv
+      d_bound := h.d_bound
+      d_next := h.d_next
+      sorted := h.sorted
+      parent := h.parent
+      closed := ?_
+      m_root := ?_
+      m_rec := ?_
+      np := ?_
+      preds := ?_ }
+  · intro u v huv hv hav
+    by_cases hc : u ∈ P ∨ (u = i ∧ v ∈ L1)
+    · exact h.closed u v hc hv hav
+    · have : u = i ∧ v = l := by grind
+      obtain ⟨rfl, rfl⟩ := this
+      exact ⟨hlq, by simp only [record]; omega⟩
+  · simp only [record]
+    rw [getD_set_rat]
+    have := h.m_root
+    grind
+  · intro l' hl' hne'
+    rw [recl_record hk hL]
+    simp only [record]
+    by_cases e : l' = l
+    · subst e
+      rw [if_pos rfl, getD_set_rat, if_pos ⟨rfl, by rw [h.len_m]; exact hl'⟩, List.map_append,
+        List.sum_append, hmulR, h.m_rec l' hl' hne']
+      simp only [List.map_cons, List.map_nil, List.sum_cons, List.sum_nil]
+      rw [getD_set_rat, if_neg (fun c => hne i (Or.inr rfl) c.1.symm)]
+      ring
+    · rw [if_neg e, hmulR, getD_set_rat, if_neg (fun c => e c.1.symm)]
+      exact h.m_rec l' hl' hne'
+  · intro l' hl'
+    rw [recl_record hk hL]
+    simp only [record]
+    rw [getD_set_nat]
+    by_cases e : l' = l
+    · subst e
+      rw [if_pos ⟨rfl, by rw [h.len_np]; exact hl'⟩, if_pos rfl, hnpl]; simp
+    · rw [if_neg (fun c => e c.1.symm), if_neg e]; exact h.np l' hl'
+  · intro l' hl'
+    rw [recl_record hk hL]
+    simp only [record]
+    rw [getD_set_nat]
+    by_cases e : l' = l
+    · subst e
+      rw [if_pos ⟨rfl, by rw [h.len_np]; exact hl'⟩, if_pos rfl, slice_set_snoc, h.preds l' hl']
+      have := lay.cap l' hl'
+      rw [h.len_fp]; omega
+    · rw [if_neg (fun c => e c.1.symm), if_neg e, slice_set_other, h.preds l' hl']
+      have h1 := (h.recl_len lay hl').1
+      have h2 := h.np l' hl'
+      rcases lay.disj l l' hl hl' (fun c => e c.symm) with d | d
+      · left; omega
+      · right; omega
+
+/-- one iteration of `for l_index in range(oi, oi + k[i])` -/
+theorem Inv.relax_step {K : Nat → Nat} (h : Inv n a w j offsets T P i L1 s)
+    (lay : Layout n a offsets T K) {l : Nat} (hl : l < n) (hal : a i l = true) (hL : l ∉ L1) :
+    Inv n a w j offsets T P i (L1 ++ [l]) (relax offsets w i (s.dist.getD i 0 + 1) s l) ∧
+      (relax offsets w i (s.dist.getD i 0 + 1) s l).dist.getD i 0 = s.dist.getD i 0 := by
+  rw [relax_eq]
+  by_cases h1 : s.dist.getD l 0 ≥ s.dist.getD i 0 + 1
+  · rw [if_pos h1]
+    by_cases h2 : s.dist.getD l 0 > s.dist.getD i 0 + 1
+    · rw [if_pos h2]
+      have hs' := h.discover_step hl hal h2
+      have hlq := h.unvisited h2
+      have hil : i ≠ l := fun e => hlq (e ▸ h.i_mem)
+      have hdi : (discover (s.dist.getD i 0 + 1) s l).dist.getD i 0 = s.dist.getD i 0 := by
+        simp only [discover]; rw [getD_set_nat]; grind
+      have hdl : (discover (s.dist.getD i 0 + 1) s l).dist.getD l 0 = s.dist.getD i 0 + 1 := by
+        simp only [discover]; rw [getD_set_nat]; have := h.len_d; grind
+      refine ⟨hs'.record_step lay hl hal (by rw [hdl, hdi]) (by simp [discover]) hL, ?_⟩
+      simpa [record] using hdi
+    · rw [if_neg h2]
+      have hd : s.dist.getD l 0 = s.dist.getD i 0 + 1 := by omega
+      have hlq : l ∈ s.queue := by
+        apply Classical.byContradiction
+        intro hc
+        have h1 := h.d_unv l hl hc
+        have h2 := h.d_bound i h.i_mem
+        have h3 := h.q_len
+        omega
+      exact ⟨h.record_step lay hl hal hd hlq hL, by simp [record]⟩
+  · rw [if_neg h1]
+    exact ⟨h.skip hl (by omega), rfl⟩
+
+/-- the whole loop over the neighbours of `i` -/
+theorem Inv.relax_fold {K : Nat → Nat} (lay : Layout n a offsets T K) (nextD : Nat) :
+    ∀ (L2 L1 : List Nat) (s : Fwd), Inv n a w j offsets T P i L1 s →
+      (∀ l, l ∈ L2 → l < n ∧ a i l = true) → (L1 ++ L2).Nodup → nextD = s.dist.getD i 0 + 1 →
+      Inv n a w j offsets T P i (L1 ++ L2) (L2.foldl (relax offsets w i nextD) s) := by
+  intro L2
+  induction L2 with
+  | nil => intro L1 s h _ _ _; simpa using h
+  | cons l t ih =>
+    intro L1 s h hm hnd hnext
+    subst hnext
+    have hl := hm l (by simp)
+    have hL : l ∉ L1 := by
+      intro hc
+      have := (List.nodup_append.mp hnd).2.2 l hc l (by simp)
+      exact this rfl
+    obtain ⟨h', hd'⟩ := h.relax_step lay hl.1 hl.2 hL
+    simp only [List.foldl_cons]
+    have := ih (L1 ++ [l]) _ h' (fun x hx => hm x (by simp [hx])) (by simpa using hnd) (by rw [hd'])
+    simpa using this
+
+theorem nbrs_nodup (n : Nat) (a : Adj) (i : Nat) : (nbrs n a i).Nodup :=
+  List.Nodup.filter _ List.nodup_range
+
+theorem mem_nbrs {n : Nat} {a : Adj} {i l : Nat} : l ∈ nbrs n a i ↔ l < n ∧ a i l = true := by
+  simp [nbrs]
+
+theorem recl_full {a : Adj} {s : Fwd} {P : List Nat} {i : Nat} {n l : Nat} (hl : l < n) :
+    recl a s P i (nbrs n a i) l = (P ++ [i]).filter fun x => kpred a s.dist x l := by
+  unfold recl
+  rw [List.filter_append]
+  congr 1
+  by_cases hk : kpred a s.dist i l = true
+  · have : l ∈ nbrs n a i := mem_nbrs.mpr ⟨hl, (kpred_adj hk).1⟩
+    simp [hk, this]
+  · simp [hk]
+
+theorem recl_nil {a : Adj} {s : Fwd} {P : List Nat} {i l : Nat} :
+    recl a s P i [] l = P.filter fun x => kpred a s.dist x l := by
+  simp [recl]
+
+/-- `qi += 1`: the next node is taken from the queue -/
+theorem Inv.next (h : Inv n a w j offsets T P i (nbrs n a i) s) {i' : Nat} {rest : List Nat}
+    (hq : s.queue = P ++ i :: i' :: rest) : Inv n a w j offsets T (P ++ [i]) i' [] s := by
+  have hii' : s.dist.getD i 0 ≤ s.dist.getD i' 0 := by
+    have := h.sorted
+    rw [hq, List.pairwise_append] at this
+    have := this.2.1
+    simp only [List.pairwise_cons] at this
+    exact this.1 i' (by simp)
+  refine { h with split := ⟨rest, by simp [hq]⟩, d_next := ?_, closed := ?_, m_rec := ?_, np := ?_,
+                  preds := ?_ }
+  · intro v hv; have := h.d_next v hv; omega
+  · intro u v huv hv hav
+    have : u ∈ P ∨ (u = i ∧ v ∈ nbrs n a i) := by
+      rcases huv with hu | ⟨_, hc⟩
+      · simp only [List.mem_append, List.mem_singleton] at hu
+        rcases hu with hu | rfl
+        · exact Or.inl hu
+        · exact Or.inr ⟨rfl, mem_nbrs.mpr ⟨hv, hav⟩⟩
+      · simp at hc
+    exact h.closed u v this hv hav
+  · intro l hl hne; rw [recl_nil, ← recl_full hl]; exact h.m_rec l hl hne
+  · intro l hl; rw [recl_nil, ← recl_full hl]; exact h.np l hl
+  · intro l hl; rw [recl_nil, ← recl_full hl]; exact h.preds l hl
+
+/-- the queue is exhausted -/
+theorem Inv.final (h : Inv n a w j offsets T P i (nbrs n a i) s) (hq : s.queue = P ++ [i]) :
+    FwdFinal n a w j offsets s := by
+  refine
+    { queue_nodup := h.q_nodup
+      queue_lt := h.q_lt
+      queue_head := h.q_head
+      dist_root := h.d_root
+      dist_unvisited := h.d_unv
+      queue_sorted := h.sorted
+      parent := h.parent
+      closed := ?_
+      mult_len := h.len_m
+      mult_root := h.m_root
+      mult_rec := ?_
+      preds := ?_ }
+  · intro u hu v hv hav
+    refine h.closed u v ?_ hv hav
+    rw [hq] at hu
+    simp only [List.mem_append, List.mem_singleton] at hu
+    rcases hu with hu | rfl
+    · exact Or.inl hu
+    · exact Or.inr ⟨rfl, mem_nbrs.mpr ⟨hv, hav⟩⟩
+  · intro l hl hne; rw [hq, ← recl_full hl]; exact h.m_rec l hl hne
+  · intro l hl; rw [hq, ← recl_full hl]; exact h.preds l hl
 
 end steps
 
